@@ -6,6 +6,8 @@ pub mod c09;
 pub mod c10;
 pub mod c11;
 pub mod c13;
+pub mod c14;
+pub mod c18;
 pub mod c15;
 pub mod c17;
 pub mod c19;
@@ -27,7 +29,9 @@ pub fn run(env: &Env) -> Option<i32> {
         "C11" => c11::run_c11(env),
         "C12" => c11::run_c12(env),
         "C13" => c13::run(env),
+        "C14" => c14::run(env),
         "C15" => c15::run(env),
+        "C18" => c18::run(env),
         "C16" => c03::run_c16(env),
         "C17" => c17::run(env),
         "C19" => c19::run(env),
@@ -46,7 +50,9 @@ pub fn replay(env: &Env, check: &str, case: &Value, st: &mut Stats) -> Option<Ve
         "C10" => c10::replay(env, check, case, st),
         "C11" | "C12" => c11::replay(env, check, case, st),
         "C13" => c13::replay(env, check, case, st),
+        "C14" => c14::replay(env, check, case, st),
         "C15" => c15::replay(env, check, case, st),
+        "C18" => c18::replay(env, check, case, st),
         "C17" => c17::replay(env, check, case, st),
         "C19" => c19::replay(env, check, case, st),
         _ => return None,
